@@ -139,10 +139,10 @@ class Decoder(Coder):
             if parameter.as_property:
                 setattr(bufr_message, parameter.name, parameter)
 
-            if parameter.expected is not None:
-                assert parameter.value == parameter.expected, 'Value ({!r}) not as expected ({!r})'.format(
+            if parameter.expected is not None and parameter.value != parameter.expected:
+                raise PyBufrKitError('Value ({!r}) not as expected ({!r})'.format(
                     parameter.value, parameter.expected
-                )
+                ))
 
         # TODO: option to ignore the declared length?
         # TODO: this depends on a specific parameter name, need change to parameter type?
